@@ -135,11 +135,18 @@ def collection_spec(draw, ctype=None, paths="plain"):
         for _ in range(nus)
     ]
     tags = draw(st.lists(st.tuples(_label, _text).map(list), min_size=0, max_size=5, unique_by=lambda t: (t[0], t[1])))
+    if draw(st.integers(0, 3)) == 0:
+        # distinct tags whose label/value collide under naive joining or normalisation
+        sep = draw(st.sampled_from([":", ",", "|", " ", "=", "/", "-", "_", ""]))
+        extra = [["taxon", f"genus{sep}Myotis"], [f"taxon{sep}genus", "Myotis"], ["Taxon", f"genus{sep}Myotis"], ["taxon", f"genus{sep}myotis"], ["taxon ", f"genus{sep}Myotis"]]
+        for t in draw(st.permutations(extra))[: draw(st.integers(2, 4))]:
+            if t not in tags:
+                tags.append(t)
     ntg = len(tags)
     nrec = draw(st.integers(1, 3)) if ctype not in ("recording_set", "dataset") else draw(st.integers(0, 3))
     recs = []
     for i in range(nrec):
-        te = draw(st.sampled_from([1.0, 1.0, 10.0, 0.5, 2.5]))
+        te = draw(st.sampled_from([1.0, 1.0, 10.0, 0.5, 2.5, 1.0000000000000002, 0.9999999999999999, 1.0000000005, 1e-9, 1e9]))
         recs.append(
             {
                 "uuid": draw(_uuid()),
